@@ -75,47 +75,71 @@ void ctr_cleanup(Cipher c, CtrObj *o)
     }
 }
 
+/* The library has to copy what it needs from key, tweak and counter arguments: when g_obj_args_copy is set (harnesses
+ * whose argument buffers are always at least as long as the length they pass, for lengths up to 256) the setters hand
+ * over a scratch copy and overwrite it as soon as the call returns (poisoned under MemorySanitizer). */
+int g_obj_args_copy;
+static uint8_t argscratch[384];
+static const void *arg_in(const void *p, unsigned len)
+{
+    if (!g_obj_args_copy || !p || len == 0 || len > 256) return p;
+    memcpy(argscratch + 64, p, len);
+    return argscratch + 64;
+}
+static void arg_done(const void *used, unsigned len)
+{
+    if (used == argscratch + 64) verif_paint_obj(argscratch + 64, len);
+}
+
 int ctr_set_key(Cipher c, CtrObj *o, const void *key, unsigned len, unsigned rounds)
 {
     int r = -99;
+    key = arg_in(key, len);
     switch (c) {
     case CK_S128: LIB(r = skinny128_ctr_set_key(o ? &o->s128 : NULL, key, len)); break;
     case CK_S64: LIB(r = skinny64_ctr_set_key(o ? &o->s64 : NULL, key, len)); break;
     case CK_MANTIS: LIB(r = mantis_ctr_set_key(o ? &o->m : NULL, key, len, rounds)); break;
     }
+    arg_done(key, len);
     return r;
 }
 
 int ctr_set_tweaked_key(Cipher c, CtrObj *o, const void *key, unsigned len)
 {
     int r = -99;
+    key = arg_in(key, len);
     switch (c) {
     case CK_S128: LIB(r = skinny128_ctr_set_tweaked_key(o ? &o->s128 : NULL, key, len)); break;
     case CK_S64: LIB(r = skinny64_ctr_set_tweaked_key(o ? &o->s64 : NULL, key, len)); break;
     default: break;
     }
+    arg_done(key, len);
     return r;
 }
 
 int ctr_set_tweak(Cipher c, CtrObj *o, const void *tweak, unsigned len)
 {
     int r = -99;
+    tweak = arg_in(tweak, len);
     switch (c) {
     case CK_S128: LIB(r = skinny128_ctr_set_tweak(o ? &o->s128 : NULL, tweak, len)); break;
     case CK_S64: LIB(r = skinny64_ctr_set_tweak(o ? &o->s64 : NULL, tweak, len)); break;
     case CK_MANTIS: LIB(r = mantis_ctr_set_tweak(o ? &o->m : NULL, tweak, len)); break;
     }
+    arg_done(tweak, len);
     return r;
 }
 
 int ctr_set_counter(Cipher c, CtrObj *o, const void *counter, unsigned len)
 {
     int r = -99;
+    counter = arg_in(counter, len);
     switch (c) {
     case CK_S128: LIB(r = skinny128_ctr_set_counter(o ? &o->s128 : NULL, counter, len)); break;
     case CK_S64: LIB(r = skinny64_ctr_set_counter(o ? &o->s64 : NULL, counter, len)); break;
     case CK_MANTIS: LIB(r = mantis_ctr_set_counter(o ? &o->m : NULL, counter, len)); break;
     }
+    arg_done(counter, len);
     return r;
 }
 
@@ -179,11 +203,13 @@ void par_cleanup(Cipher c, ParObj *o)
 int par_set_key(Cipher c, ParObj *o, const void *key, unsigned len, unsigned rounds, int mode)
 {
     int r = -99;
+    key = arg_in(key, len);
     switch (c) {
     case CK_S128: LIB(r = skinny128_parallel_ecb_set_key(o ? &o->s128 : NULL, key, len)); break;
     case CK_S64: LIB(r = skinny64_parallel_ecb_set_key(o ? &o->s64 : NULL, key, len)); break;
     case CK_MANTIS: LIB(r = mantis_parallel_ecb_set_key(o ? &o->m : NULL, key, len, rounds, mode)); break;
     }
+    arg_done(key, len);
     return r;
 }
 
